@@ -27,6 +27,8 @@ type C14Config struct {
 	OutExists bool `json:"out_exists,omitempty"`
 	// InPlace: -o names the (single) input file itself
 	InPlace bool `json:"in_place,omitempty"`
+	// StdinFile: standard input is redirected from a regular file instead of being a pipe
+	StdinFile bool `json:"stdin_file,omitempty"`
 	// Fifo: the input files are named pipes instead of regular files (same bytes, same names)
 	Fifo bool `json:"fifo,omitempty"`
 	// SelNames: the selector mentions something besides $ ($file, a global of the program)
@@ -103,7 +105,7 @@ func (c *C14Config) runCLI(progFile bool, stdin bool, out string, prog string, s
 			args = append(args, name)
 		}
 	}
-	res, err := run.CLI(run.CLIOpts{Args: args, Stdin: in, Files: files, Fifos: fifos, KeepDir: out == "FILE"})
+	res, err := run.CLI(run.CLIOpts{Args: args, Stdin: in, StdinFromFile: stdin && c.StdinFile, Files: files, Fifos: fifos, KeepDir: out == "FILE"})
 	if err != nil || res.TimedOut {
 		if res != nil {
 			res.Cleanup()
@@ -291,6 +293,11 @@ func genC14(t *rapid.T) (*C14Config, []string) {
 		for k := 0; k < n; k++ {
 			c.Files = append(c.Files, DFile{Name: "f", Docs: []string{rapid.SampledFrom([]string{`[1,2]`, `{"a":1}`, `"s"`, `[]`, `{"a":{"b":[3]}}`, `{"50%":"%s %d %v %!"}`, `["%", "%%", "100%"]`}).Draw(t, "degdoc")}})
 		}
+		if rapid.Bool().Draw(t, "degsel") {
+			// a selector with a program that has no rule which would look at the selected root
+			c.Sels = []string{rapid.SampledFrom([]string{"$.a", "$[0]", "$.a.b", "[$, 1]", "$.missing"}).Draw(t, "degselector")}
+			c.Files = c.Files[:1]
+		}
 		labels = append(labels, "degenerate-program")
 	case 0, 1:
 		d, _ := genC02(t)
@@ -376,6 +383,10 @@ func genC14(t *rapid.T) (*C14Config, []string) {
 	}
 	c.ProgFile = rapid.Bool().Draw(t, "progfile")
 	c.Stdin = len(c.Files) == 1 && rapid.Bool().Draw(t, "stdin")
+	if rapid.Bool().Draw(t, "stdinfile") {
+		// (whenever standard input is used in this configuration: redirected from a file, not piped)
+		c.StdinFile = true
+	}
 	c.Out = rapid.SampledFrom([]string{"", "", "-", "-", "FILE", "FILE", "MISSINGDIR", "DEVFULL"}).Draw(t, "out")
 	if c.Out == "FILE" && rapid.Bool().Draw(t, "outexists") {
 		c.OutExists = true
